@@ -27,15 +27,21 @@ static const Process::Option g_opts[] = {
 struct Ev { int ch; char text[16]; unsigned len; };
 static bool eq(const char* a, unsigned n, const char* lit) { unsigned i = 0; for(; i < n; ++i) if(!lit[i] || a[i] != lit[i]) return false; return lit[i] == 0; }
 
-extern "C" int arguments()
+#ifndef VF_ARGCM
+#define VF_ARGCM 4     // arguments_many: number of arguments
+#endif
+#ifndef VF_ARGLM
+#define VF_ARGLM 2     // arguments_many: length bound of every argument
+#endif
+static int run(unsigned maxArgs, unsigned firstLen, unsigned otherLen)
 {
-  // argv[0] + up to VF_ARGC arguments, each an exactly sized NUL-terminated object over {-,=,a,b,x}
-  char* argv[VF_ARGC + 2]; unsigned lens[VF_ARGC + 1];
-  unsigned argc = 1 + vf_pick(VF_ARGC + 1);
+  // argv[0] + up to maxArgs arguments, each an exactly sized NUL-terminated object over {-,=,a,b,x}
+  char* argv[8]; unsigned lens[8];
+  unsigned argc = 1 + vf_pick(maxArgs + 1);
   argv[0] = (char*)vf_alloc(2); argv[0][0] = 'p'; argv[0][1] = 0;
   for(unsigned i = 1; i < argc; ++i)
   {
-    unsigned n = vf_pick((i == 1 ? VF_ARGL : VF_ARGL2) + 1); lens[i] = n;
+    unsigned n = vf_pick((i == 1 ? firstLen : otherLen) + 1); lens[i] = n;
     argv[i] = (char*)vf_alloc(n + 1);
     for(unsigned j = 0; j < n; ++j) { byte b = vf_u8(); vf_assume((b == '-') | (b == '=') | (b == 'a') | (b == 'b') | (b == 'x')); argv[i][j] = (char)b; }
     argv[i][n] = 0;
@@ -104,6 +110,10 @@ extern "C" int arguments()
   vf_reach("end");
   return 0;
 }
+
+extern "C" int arguments() { return run(VF_ARGC, VF_ARGL, VF_ARGL2); }
+// more, shorter arguments: what a "--" terminator, a consumed option argument or a cluster does to the arguments after the next one
+extern "C" int arguments_many() { return run(VF_ARGCM, VF_ARGLM, VF_ARGLM); }
 
 // words separated by single spaces, double-quoted segments, \" inside quotes
 extern "C" int split()
